@@ -72,6 +72,7 @@ class Tensor:
                 self.array = np.array(args[0].array, **kwargs)  # type: ignore[call-overload]
                 self._covariant_indices = args[0]._covariant_indices
                 self._contravariant_indices = args[0]._contravariant_indices
+                self._validate_tensor()
                 return
             else:
                 self.array = np.array(args[0], **kwargs)  # type: ignore[call-overload]
@@ -459,9 +460,12 @@ class TensorCollection(Tensor, Generic[T], Sized, Iterable[T]):
         """
         kwargs.setdefault("copy", False)
         if tensor.free_indices > 0:
-            return cls(tensor, **kwargs)
-        else:
-            return cls._element_class(tensor, **kwargs)  # type: ignore[return-value]
+            try:
+                return cls(tensor, **kwargs)
+            except IncompatibleShapeError:
+                # e.g. a single segment: its vertex axis is a free index, but it is not a collection of segments
+                pass
+        return cls._element_class(tensor, **kwargs)  # type: ignore[return-value]
 
     @classmethod
     def from_array(cls, array: npt.ArrayLike, **kwargs: Unpack[NDArrayParameters]) -> Self | T:
